@@ -221,7 +221,54 @@ func enumOddSources(thorough bool, yield func(Case) bool) {
 	}
 }
 
+// Prefix-operator chains: every sequence of up to three prefix operators (- + ! -- ++) over every kind of
+// operand, optionally as the base of a power, a post-incremented operand, or the right operand of a binary
+// minus/plus -- the places where the printer must keep two sign characters apart (or must not).  Sources are
+// written with a space after every prefix operator, so the lexer can never fuse them; sequences the grammar
+// does not allow (++ before a non-lvalue) are rejected by the parser and discarded.
+var lvalueStart = map[string]bool{"x": true, "$1": true, "a[k]": true, "$x": true, "NF": true, "x ^ 2": true, "$1 ^ n": true, "a[k] ^ 2 ^ 3": true}
+
+func enumPrefixChains(thorough bool, yield func(Case) bool) {
+	prefixes := []string{"-", "+", "!", "--", "++"}
+	operands := []string{"x", "$1", "a[k]", "$x", "1", "2.5", "f(x)", "(x)", "NF", "x ^ 2", "$1 ^ n", "a[k] ^ 2 ^ 3", "x++", "$1--", "x++ ^ 2", "length", "length(x)", "(-1)", "-1"}
+	var chains [][]string
+	for _, a := range prefixes {
+		chains = append(chains, []string{a})
+		for _, b := range prefixes {
+			chains = append(chains, []string{a, b})
+			for _, c := range prefixes {
+				chains = append(chains, []string{a, b, c})
+			}
+		}
+	}
+	contexts := []string{"y = %s", "y = 1 - %s", "y = 1 + %s", "y = z %s", "y = 2 ^ %s", "y = %s ^ 2", "print %s", "print 1, %s > \"out\"", "y = a[%s]", "y = $ %s", "y = !%s", "y = (%s) y", "y = x < %s", "y = %s ? %s : %s"}
+	for _, ch := range chains {
+		for _, opd := range operands {
+			// ++/-- only directly in front of an lvalue (everything else the parser rejects)
+			ok := true
+			for i, pf := range ch {
+				if pf == "--" || pf == "++" {
+					if i != len(ch)-1 || !lvalueStart[opd] {
+						ok = false
+					}
+				}
+			}
+			if !ok {
+				continue
+			}
+			e := strings.Join(ch, " ") + " " + opd
+			for _, cx := range contexts {
+				src := "BEGIN { " + strings.ReplaceAll(cx, "%s", e) + " }\nfunction f(p) { return p }\n"
+				if !yield(Case{Src: h.Str(src)}) {
+					return
+				}
+			}
+		}
+	}
+}
+
 func init() {
+	h.Enum("prefix_operator_chains", enumPrefixChains, run)
 	h.Enum("odd_sources", enumOddSources, run)
 	h.Enum("getline_in_print_list", enumGetlineInPrintList, run)
 	h.Prop("print_reparse_roundtrip", 80000, 1500000, genCase, run)
